@@ -206,7 +206,7 @@ func judgePair(r *h.Run, kind string, p *pair, coreWindow time.Duration) {
 func init() {
 	Register(&Prop{ID: "C06",
 		Meta: Meta{Stages: 2, Level: "exploration",
-			Rule: "real net/rpc Client+Serve in two simulated processes; k in [1,8] brokered IDs per run with drawn direction, accept/dial order, gap 0-4.5s and payload size, concurrent Dispense traffic (up to 6 dispenses of several plugin names whose Server() takes 0-1.2 s and, for two of them, fails); seeded schedule noise (yields/sleeps at woven points, focus on mux_broker.go), socket latency and short reads; oracle = rendezvous reference model (answer through Dial(n) is id=n with the payload checksum; pairs issued <=2s apart incl. injected delay must both succeed; every Dispense reaches a distinct fresh server object) Plus the rendezvous with ONE CONTEXT SWITCH AT EVERY STATEMENT: stage 0 profiles the go-plugin statements either process passes while one pair is established (direction x order), stage 1 runs one case per (process, statement, occurrence) in which the peer issues its half of the pair exactly while that goroutine is at that statement (or, if already issued, the goroutine stays there 2 ms); the dial must succeed and be answered by id=n, the control connection and a fresh pair must still work."},
+			Rule: "real net/rpc Client+Serve in two simulated processes; k in [1,8] brokered IDs per run with drawn direction, accept/dial order, gap 0-4.5s and payload size, concurrent Dispense traffic (up to 6 dispenses of several plugin names whose Server() takes 0-1.2 s and, for two of them, fails); seeded schedule noise (yields/sleeps at woven points, focus on mux_broker.go), socket latency and short reads; oracle = rendezvous reference model (answer through Dial(n) is id=n with the payload checksum; pairs issued <=2s apart incl. injected delay must both succeed; every Dispense reaches a distinct fresh server object) Plus BURSTS (k=4/9/24/70 accepts outstanding and all dialled at the same instant in either direction, k Dispenses at once: all succeed, all reach their own peer / a distinct server object). Plus the rendezvous with ONE CONTEXT SWITCH AT EVERY STATEMENT: stage 0 profiles the go-plugin statements either process passes while one pair is established (direction x order), stage 1 runs one case per (process, statement, occurrence) in which the peer issues its half of the pair exactly while that goroutine is at that statement (or, if already issued, the goroutine stays there 2 ms); the dial must succeed and be answered by id=n, the control connection and a fresh pair must still work."},
 		Plan: func(tier string, seed uint64, stage int, prev []*h.Result) []*k.Spec {
 			if stage > 0 {
 				return pairRaceSpecs("C06", P(), tier, seed, stage, prev)
@@ -780,7 +780,7 @@ func init() {
 func init() {
 	Register(&Prop{ID: "C08",
 		Meta: Meta{Stages: 2, Level: "exploration",
-			Rule: "real gRPC Client+Serve with broker multiplexing; a sequence of 1-5 brokered connections established one at a time as documented (drawn direction, accept-first or dial-first, gap 0-4s), pings on the main connection and on every earlier brokered connection in between; seeded schedule noise with focus on GRPCBroker.Accept/listenForKnocks/knock/muxDial and the grpcmux package; oracle = connection n answers id=n (never the main service or another id), first call succeeds for pairs inside the window, main and earlier connections keep answering Plus the rendezvous with ONE CONTEXT SWITCH AT EVERY STATEMENT: stage 0 profiles the go-plugin statements either process passes while one pair is established (direction x order), stage 1 runs one case per (process, statement, occurrence) in which the peer issues its half of the pair exactly while that goroutine is at that statement (or, if already issued, the goroutine stays there 2 ms); the dial must succeed and be answered by id=n, the control connection and a fresh pair must still work."},
+			Rule: "real gRPC Client+Serve with broker multiplexing; a sequence of 1-5 brokered connections established one at a time as documented (drawn direction, accept-first or dial-first, gap 0-4s), pings on the main connection and on every earlier brokered connection in between; seeded schedule noise with focus on GRPCBroker.Accept/listenForKnocks/knock/muxDial and the grpcmux package; oracle = connection n answers id=n (never the main service or another id), first call succeeds for pairs inside the window, main and earlier connections keep answering Plus the rendezvous with ONE CONTEXT SWITCH AT EVERY STATEMENT: stage 0 profiles the go-plugin statements either process passes while one pair is established (direction x order), stage 1 runs one case per (process, statement, occurrence) in which the peer issues its half of the pair exactly while that goroutine is at that statement (or, if already issued, the goroutine stays there 2 ms); the dial must succeed and be answered by id=n, the control connection and a fresh pair must still work. Plus ID re-use: the listener of an ID is closed (server stopped) and the ID accepted again after 50 ms, or AT ONCE in the same breath (with and without a second Close of the old listener, as a deferred Close after Stop does), either side; plus a dialler that keeps re-dialling an ID nobody listens on."},
 		Plan: func(tier string, seed uint64, stage int, prev []*h.Result) []*k.Spec {
 			if stage > 0 {
 				return pairRaceSpecs("C08", nil, tier, seed, stage, prev)
